@@ -430,6 +430,8 @@ func c18Inferable(r *core.Run, rng *rand.Rand) {
 		{"DateTime", []string{"DateTime", fmt.Sprintf("DateTime('%s')", zone)}, func() proto.ColResult { return new(proto.ColDateTime) }},
 		{"AutoResult", []string{fmt.Sprintf("DateTime64(%d)", p1), fmt.Sprintf("DateTime64(%d)", p2)}, func() proto.ColResult { return &proto.ColAuto{} }},
 		{"AutoResult(Enum)", []string{enumA, enumB}, func() proto.ColResult { return &proto.ColAuto{} }},
+		{"AutoResult(LowCardinality)", []string{"LowCardinality(String)", "LowCardinality(String)"}, func() proto.ColResult { return &proto.ColAuto{} }},
+		{"AutoResult(Array(LowCardinality))", []string{"Array(LowCardinality(String))", "Array(LowCardinality(String))"}, func() proto.ColResult { return &proto.ColAuto{} }},
 		{"AutoResult(Array)", []string{fmt.Sprintf("Array(DateTime64(%d))", p1), fmt.Sprintf("Array(DateTime64(%d))", p2)}, func() proto.ColResult { return &proto.ColAuto{} }},
 	}
 	c := cases[rng.Intn(len(cases))]
